@@ -3,7 +3,7 @@
  'functions': ['bsearch'],
  'clauses': 'for every nmemb (0 included), the given element size and ANY comparator results: terminates, every compar call gets (key, pointer to an element inside the array) - so nothing outside the array is ever handed out for dereferencing -, result is NULL or a pointer to an element of the array; array and key not modified by bsearch itself',
  'params': {'SIZE': [1, 2, 3, 4, 8, 32]}, 'solver': 'kissat', 'timeout': 300,
- 'params_thorough': {'SIZE': [1, 2, 3, 4, 5, 6, 7, 8, 9, 10, 11, 12, 13, 14, 15, 16, 17, 18, 19, 20, 21, 22, 23, 24, 25, 26, 27, 28, 29, 30, 31, 32]},
+ 'params_thorough': {'SIZE': [1, 2, 3, 4, 5, 6, 7, 8, 9, 10, 11, 12, 13, 14, 15, 16, 17, 18, 20, 22, 24, 26, 28, 30, 31, 32]},
  'inject': [
    {'file': 'compat/libc/stdlib/bsearch.c', 'func': 'bsearch', 'ghost': 'g_bl = 0; g_bd = nmemb; g_sr_idx = 0;', 'at': 'func-begin'},
    {'file': 'compat/libc/stdlib/bsearch.c', 'func': 'bsearch', 'loop': 0, 'expect': 'left + size < right',
